@@ -191,6 +191,7 @@ func c07Query(params []c07Param) string {
 
 func c07Run(c c07Case, o *hx.Obs) {
 	root := c.Module.Root()
+	schemaClasses(o, c.Module)
 	mm, err := loadDM(c.Module)
 	if err != nil {
 		o.Failf("harness|schema-rejected", "generated schema does not load: %v\n%s", err, c.Module.Yang())
@@ -558,6 +559,7 @@ func countNodes(n *dm.Node, t dm.Tree) (containers, all int) {
 
 func c07RangeRun(c c07RangeCase, o *hx.Obs) {
 	root := c.Module.Root()
+	schemaClasses(o, c.Module)
 	mm, err := loadDM(c.Module)
 	if err != nil {
 		o.Failf("harness|schema-rejected", "generated schema does not load: %v\n%s", err, c.Module.Yang())
